@@ -212,7 +212,9 @@ func (env *Env) evalCall(x *ast.CallExpr, st *State) Val {
 				} else if fv, ok := obj.(*types.Var); ok {
 					// call of a function-typed field
 					fval := env.selectField(rv, fv.Name(), st, f.Pos())
-					return env.applyFuncValue(fval, env.evalArgs(x.Args, st), st, x)
+					fargs := env.evalArgs(x.Args, st)
+					env.callHooksNamed(fv.Name(), &rv, fargs, st, x)
+					return env.applyFuncValue(fval, fargs, st, x)
 				}
 			}
 		}
@@ -1580,13 +1582,16 @@ func (c *Ctx) hasRealField(t types.Type, name string) bool {
 
 // callHooks: per-path call log, `order` and `atcall` clauses of the function under verification.
 func (env *Env) callHooks(fobj *types.Func, recv *Val, args []Val, st *State, call *ast.CallExpr) {
+	env.callHooksNamed(fobj.Name(), recv, args, st, call)
+}
+
+func (env *Env) callHooksNamed(name string, recv *Val, args []Val, st *State, call *ast.CallExpr) {
 	c := env.c
 	if env.contract || env.noSafety || c.inlineTag != "" || c.fi.Contract == nil {
-		st.calls = append(st.calls, fobj.Name())
+		st.calls = append(st.calls, name)
 		return
 	}
 	con := c.fi.Contract
-	name := fobj.Name()
 	for _, od := range con.Orders {
 		if od[0] == name {
 			found := false
